@@ -10,7 +10,7 @@ import z3
 import e2
 import kani
 from common import Report, build_native, seed
-from mir_exec import SInt, Agg, load_program
+from mir_exec import SBool, SInt, Agg, Unsupported, load_program
 from mir_models import is_whitespace, none, some, z_and, z_or, z_not
 
 WS = [9, 10, 11, 12, 13, 0x20, 0x85, 0xA0, 0x1680, 0x2000, 0x2003, 0x200A, 0x2028, 0x2029, 0x202F, 0x205F, 0x3000]
@@ -193,6 +193,160 @@ def h_gutter():
                       bound="1–2 diff items of every kind; #expectations, #output lines, test line number < 1200 symbolic (digit-count boundaries 10/100/1000); relative and absolute numbering")
 
 
+class TextModels(__import__("props.c09", fromlist=["GenModels"]).GenModels):
+    """the renderers with their real text handling; console styling is the identity on the text"""
+
+    def __init__(self):
+        super().__init__()
+        import re
+        from mir_exec import StringBuf
+        from mir_models import as_str, deref as dr
+        ins = lambda pat, fn: self.table.insert(0, (re.compile("^(?:%s)$" % pat), fn))
+        ident = lambda c, m, a: a[0]
+        ins(r"(?:console::)?style::<.*>", ident)
+        ins(r"(?:console::)?StyledObject::<.*>::[a-z_0-9]+", ident)
+        ins(r"<(?:console::)?StyledObject<.*> as ToString>::to_string", lambda c, m, a: StringBuf(list(as_str(dr(a[0])).chars)))
+        ins(r"(?:console::)?strip_ansi_codes", lambda c, m, a: __import__("mir_exec").Agg("Cow", "Borrowed", [as_str(a[0])]))
+        ins(r"(?:console::)?colors_enabled", lambda c, m, a: SBool(False))
+        # blanket impl `impl<T: AsRef<str>> TailingSpacesHighlighter for T`: the one body, T = String / &str
+        from mir_exec import find_method as fm
+        ins(r"<(?:String|&str|str) as TailingSpacesHighlighter>::higlight_tailing_spaces",
+            lambda c, m, a: c.call(fm(c.program, "renderers/pretty.rs", "higlight_tailing_spaces"), a))
+        ins(r"<T as AsRef<str>>::as_ref", lambda c, m, a: as_str(a[0]))
+
+
+def long_texts(n):
+    """two texts of n multi-byte characters whose character boundaries are disjoint (except 0 and the ends): a renderer that cuts at a
+    fixed byte offset inside the text hits the middle of a character in one of them"""
+    return ["\u00e9" * n, "a" + "\u00e9" * n]
+
+
+def h_long_lines(renderer, sizes):
+    """a failed test case whose matched / unmatched expectations and unexpected output line are long multi-byte texts"""
+    from mir_exec import Agg, Opaque, Slice, Str, StringBuf, VecBuf, find_method, mk_int, mk_struct, new_ref
+    from mir_models import none
+    from props.c08 import get_maker
+
+    def mk(text, surrounding):
+        def setup(ctx):
+            ctx.notes["text"] = text
+            ctx.notes["surrounding"] = surrounding
+            return []
+        return setup
+
+    def drive(ctx, args):
+        """render(&[&outcome]) of the named renderer"""
+        prog = ctx.program
+        text = ctx.notes["text"]
+        parse = find_method(prog, "src/expectation.rs", "parse")
+        maker = get_maker(ctx)
+
+        def exp(t):
+            r = ctx.call(parse, [new_ref(maker), Str([SInt(ord(c), "char") for c in t])])
+            if r.variant != "Ok":
+                raise Unsupported("expectation does not parse")
+            return r.fields[0]
+        raw = lambda t: VecBuf([SInt(b, "u8") for b in (t + "\n").encode("utf-8")], "u8")
+        e0, e1 = exp(text), exp(text + "x")
+        diff = mk_struct("Diff", lines=VecBuf([
+            Agg("DiffLine", "MatchedExpectation", [mk_int(0, "usize"), e0, VecBuf([Agg("tuple", None, [mk_int(0, "usize"), raw(text)])])]),
+            Agg("DiffLine", "UnmatchedExpectation", [mk_int(1, "usize"), e1]),
+            Agg("DiffLine", "UnexpectedLines", [VecBuf([Agg("tuple", None, [mk_int(1, "usize"), raw(text + "y")])])])]),
+            count_matched=mk_int(1, "usize"), count_unmatched=mk_int(1, "usize"), count_output_lines=mk_int(2, "usize"))
+        tc = mk_struct("TestCase", title=StringBuf([SInt(ord("t"), "char")]), shell_expression=StringBuf([SInt(ord(c), "char") for c in "cmd"]),
+                       expectations=VecBuf([e0, e1]), exit_code=none(), line_number=mk_int(3, "usize"), config=Opaque("config"))
+        out = mk_struct("Output", stderr=Agg("OutputStream", None, [VecBuf([], "u8")]), stdout=Agg("OutputStream", None, [VecBuf([], "u8")]),
+                        exit_code=Agg("ExitStatus", "Code", [mk_int(0, "i32")]))
+        outcome = mk_struct("Outcome", location=none(), output=out, testcase=tc, format=Agg("ParserType", "Markdown", []), escaping=Agg("Escaper", "Unicode", []),
+                            result=Agg("Result", "Err", [Agg("TestCaseError", "MalformedOutput", [diff])]))
+        if renderer == "diff":
+            f = prog.resolve_call("<DiffRenderer as Renderer>::render")
+            return ctx.call(f, [new_ref(Agg("DiffRenderer", None, [])), Slice([new_ref(outcome)])])
+        rend = mk_struct("PrettyColorRenderer", max_surrounding_lines=mk_int(ctx.notes["surrounding"], "usize"), absolute_line_numbers=SBool(False), summarize=SBool(False))
+        f = prog.resolve_call("<PrettyColorRenderer as Renderer>::render")
+        return ctx.call(f, [new_ref(rend), Slice([new_ref(outcome)])])
+
+    def post(ctx, args, kind, value):
+        if kind != "return" or value.variant != "Ok":
+            return False
+        from mir_models import as_str
+        text = "".join(chr(c.v) if c.concrete else "?" for c in as_str(value.fields[0]).chars)
+        # both differences are shown in full
+        return (ctx.notes["text"] + "x") in text and (ctx.notes["text"] + "y") in text
+    inputs = []
+    for n in sizes:
+        for t in long_texts(n):
+            for sur in ((0, 5) if renderer == "pretty" else (0,)):
+                inputs.append(("%s… (%d chars, %d bytes), surrounding=%d" % (t[:2], len(t), len(t.encode()), sur), mk(t, sur)))
+    h = e2.Harness("%s_renderer_long_multibyte_lines" % renderer, drive, inputs, post, native=None, judge=None,
+                   describe="the %s renderer returns a rendering without panicking for a failed test case whose matched / unmatched expectations and "
+                            "unexpected line are long multi-byte texts, and shows both differences in full" % renderer,
+                   bound="texts of %s two-byte characters, with and without a leading one-byte character (every byte offset inside the text is a "
+                         "non-boundary in one of the two)%s" % (list(sizes), "; 0 and 5 surrounding lines" if renderer == "pretty" else ""))
+    h.models_cls = TextModels
+    return h
+
+
+def h_diff_renderer(max_bytes):
+    """`-r diff` on one failed test case whose diff has an unmatched expectation and one unexpected output line of arbitrary bytes"""
+    from mir_exec import Agg, Opaque, Slice, Str, StringBuf, VecBuf, find_method, mk_int, mk_struct, new_ref
+    from mir_models import as_str, none
+    from props.c08 import get_maker
+
+    def mk(n, nl):
+        def setup(ctx):
+            bs = [ctx.sym_int("b%d" % i, "u8") for i in range(n)]
+            for b in bs:
+                ctx.add(b.z() != 10)
+            ctx.notes["bytes"] = bs
+            ctx.notes["nl"] = nl
+            return []
+        return setup
+
+    def drive(ctx, args):
+        """<DiffRenderer as Renderer>::render(&[&outcome])"""
+        prog = ctx.program
+        parse = find_method(prog, "src/expectation.rs", "parse")
+        r = ctx.call(parse, [new_ref(get_maker(ctx)), Str([SInt(ord(c), "char") for c in "want"])])
+        exp = r.fields[0]
+        line = list(ctx.notes["bytes"]) + ([SInt(10, "u8")] if ctx.notes["nl"] else [])
+        diff = mk_struct("Diff", lines=VecBuf([Agg("DiffLine", "UnmatchedExpectation", [mk_int(0, "usize"), exp]),
+                                               Agg("DiffLine", "UnexpectedLines", [VecBuf([Agg("tuple", None, [mk_int(0, "usize"), VecBuf(line, "u8")])])])]),
+                         count_matched=mk_int(0, "usize"), count_unmatched=mk_int(1, "usize"), count_output_lines=mk_int(1, "usize"))
+        tc = mk_struct("TestCase", title=StringBuf([SInt(ord("t"), "char")]), shell_expression=StringBuf([SInt(ord(c), "char") for c in "cmd"]),
+                       expectations=VecBuf([exp]), exit_code=none(), line_number=mk_int(3, "usize"), config=Opaque("config"))
+        out = mk_struct("Output", stderr=Agg("OutputStream", None, [VecBuf([], "u8")]), stdout=Agg("OutputStream", None, [VecBuf(line, "u8")]),
+                        exit_code=Agg("ExitStatus", "Code", [mk_int(0, "i32")]))
+        outcome = mk_struct("Outcome", location=none(), output=out, testcase=tc, format=Agg("ParserType", "Markdown", []), escaping=Agg("Escaper", "Unicode", []),
+                            result=Agg("Result", "Err", [Agg("TestCaseError", "MalformedOutput", [diff])]))
+        render = prog.resolve_call("<DiffRenderer as Renderer>::render")
+        return ctx.call(render, [new_ref(Agg("DiffRenderer", None, [])), Slice([new_ref(outcome)])])
+
+    def post(ctx, args, kind, value):
+        if kind != "return":
+            return False              # a panic is a crash
+        if value.variant != "Ok":
+            return False              # no rendering for a failed test case
+        text = list(as_str(value.fields[0]).chars)
+        lines, cur = [], []
+        for ch in text:
+            if ch.concrete and ch.v == 10:
+                lines.append(cur)
+                cur = []
+            else:
+                cur.append(ch)
+        minus = [ln for ln in lines if ln and ln[0].concrete and ln[0].v == ord("-")]
+        plus = [ln for ln in lines if ln and ln[0].concrete and ln[0].v == ord("+")]
+        if len(minus) != 1 or len(plus) != 1:
+            return False              # the unmatched expectation and the unexpected line are each shown once
+        return all(c.concrete and c.v == ord(x) for c, x in zip(minus[0][1:], "want")) and len(minus[0]) == 5 and len(plus[0]) > 1 or ctx.notes["bytes"] == []
+    inputs = [("unexpected line of %d byte(s), newline=%s" % (n, nl), mk(n, nl)) for n in range(0, max_bytes + 1) for nl in (True, False)]
+    return e2.Harness("diff_renderer_shows_every_difference", drive, inputs, post, native=None, judge=None,
+                      describe="the diff renderer returns a rendering (no error, no panic) with one `-` line for the unmatched expectation and one `+` "
+                               "line for the unexpected output line, whatever bytes that line holds",
+                      bound="one failed test case; unexpected line of 0..%d arbitrary bytes (valid and invalid UTF-8) with/without final newline" % max_bytes)
+
+
 def run(pid, tier):
     global NAT
     rep = Report(pid, tier, "other")
@@ -240,6 +394,48 @@ def run(pid, tier):
         else:
             rep.mismatches.append("pretty_gutter_width: solver witness did not reproduce natively: %s → %s" % (w, str(nv)[:80]))
     e2.record(rep, hg, resg)
+    # the diff renderer on arbitrary output bytes
+    from props.c09 import GenModels
+    hd = h_diff_renderer(2 if tier == "quick" else 3)
+    hd.models_cls = GenModels
+    resd = e2.run_with_raw(prog, hd, max_witnesses=6)
+    for model, r in resd.raw_witnesses[:6]:
+        line = bytes(e2.model_int(model, b) for b in r.ctx.notes["bytes"]) + (b"\n" if r.ctx.notes["nl"] else b"")
+        nk, nv = NAT.call("render_unexpected_line", [list(line)])
+        bad = [k for k in ("diff", "pretty", "json", "yaml") if nk != "return" or "Ok" not in nv.get(k, {})]
+        try:
+            line.decode("utf-8")
+            cls = "valid-utf8"
+        except UnicodeDecodeError:
+            cls = "invalid-utf8"
+        if bad:
+            rep.violation("renderer-fails:%s:%s" % ("+".join(bad), cls), "renderer(s) %s return no rendering for a failed test case whose unexpected output line is %r: %s"
+                          % (bad, line, {k: nv.get(k) for k in bad} if nk == "return" else nv),
+                          {"kind": "eval", "fn": "render_unexpected_line", "args": [list(line)], "native": [nk, nv], "harness": hd.name})
+        elif nk == "return" and ("\n-want\n" not in "\n" + nv["diff"]["Ok"] or "\n+" not in "\n" + nv["diff"]["Ok"]):
+            rep.violation("diff-renderer:difference-missing:%s" % cls, "the diff rendering of an unmatched expectation `want` and the unexpected line %r lacks one of them: %r"
+                          % (line, nv["diff"]["Ok"]), {"kind": "eval", "fn": "render_unexpected_line", "args": [list(line)], "native": [nk, nv], "harness": hd.name})
+        else:
+            rep.mismatches.append("%s: solver witness %r did not reproduce natively: %s" % (hd.name, line, str(nv)[:200]))
+    e2.record(rep, hd, resd)
+    # long multi-byte lines through the real text paths of the pretty and diff renderers
+    sizes = [40, 100, 200] if tier == "quick" else [20, 40, 70, 100, 150, 200, 300, 500]
+    for rend in ("pretty", "diff"):
+        hl2 = h_long_lines(rend, sizes)
+        resl = e2.run_with_raw(prog, hl2, max_witnesses=4)
+        for model, r in resl.raw_witnesses[:4]:
+            text = r.ctx.notes["text"]
+            nk, nv = NAT.call("render_long_lines", [text, r.ctx.notes["surrounding"]])
+            got = nv.get(rend) if nk == "return" else None
+            if nk == "panic" or got is None or "Ok" not in got or (text + "x") not in got["Ok"] or (text + "y") not in got["Ok"]:
+                rep.violation("%s-renderer:long-multibyte-line:%s" % (rend, "panic" if nk == "panic" or (got and "panic" in got) else "difference-missing"),
+                              "the %s renderer %s on a failed test case whose lines are %d two-byte characters%s (%d surrounding lines): %s"
+                              % (rend, "panics" if nk == "panic" or (got and "panic" in got) else "does not show both differences in full", text.count("\u00e9"),
+                                 " after one ASCII character" if text.startswith("a") else "", r.ctx.notes["surrounding"], str(nv if got is None else got)[:160]),
+                              {"kind": "eval", "fn": "render_long_lines", "args": [text, r.ctx.notes["surrounding"]], "native": [nk, str(nv)[:400]], "harness": hl2.name})
+            else:
+                rep.mismatches.append("%s: solver witness (%d chars) did not reproduce natively" % (hl2.name, len(text)))
+        e2.record(rep, hl2, resl)
     # second engine on the same claim: Kani on the compiled function (quick: it takes ~20 s)
     k = kani.run_harness("c19::c19_space_start_index_is_char_boundary", timeout_s=600)
     st = {"pass": "holds", "fail": "violated", "undecided": "undecided"}[k["status"]]
